@@ -8,6 +8,10 @@ import traceback
 from .common import Inconclusive, case_rng, digest, jsonable
 
 
+import os as _os
+FIRST_ONLY = bool(_os.environ.get('VERIF_FIRST_VIOLATION'))
+
+
 class Acc:
     """Accumulator handed to a property's run_case."""
 
@@ -118,6 +122,8 @@ def run_cases(pid, tier, seed, cases, verbose=False, shard=0, nshards=1):
         except Exception:       # a crash of the harness itself is never a verdict
             acc.note_inconclusive('case %s: harness error: %s' % (c, traceback.format_exc()[-1800:]))
         acc.evaluations += 1
+        if acc.violations and FIRST_ONLY:
+            break       # (matrix runs over the seeded changes: one witness per shard is enough to say "caught")
     if hasattr(mod, 'finish_shard'):
         mod.finish_shard(acc, shard, nshards)
     r = acc.result()
